@@ -457,6 +457,10 @@ def ev(n, env, funcs=None):
             if isinstance(v, (int, float)):
                 return float(v).is_integer()
             raise Unsupported('is_integer on a non-number')
+        if isinstance(f, ast.Attribute) and isinstance(f.value, ast.Name) and f.value.id == 'copy' and 'copy' not in env and fname in ('copy', 'deepcopy') and len(n.args) == 1:
+            # the standard copy module (not numpy.copy, which the harness may provide under the same bare name)
+            from . import absint as _absint
+            return (_absint.shallow_copy if fname == 'copy' else _absint.deep_copy)(ev(n.args[0], env, funcs))
         if isinstance(f, ast.Attribute) and isinstance(f.value, ast.Name) and f.value.id in _SAFE_MODULES and f.value.id not in env \
                 and hasattr(_SAFE_MODULES[f.value.id], fname) and not fname.startswith('_'):
             # a pure standard-library function on text / numbers (re.match, string constants ...)
@@ -464,7 +468,7 @@ def ev(n, env, funcs=None):
             if any(isinstance(x_, (Obj, PyStub)) for x_ in a_):
                 raise Unsupported('call %s on an abstract object' % _unparse(n))
             return getattr(_SAFE_MODULES[f.value.id], fname)(*a_, **_kw(n, env, funcs))
-        if isinstance(f, ast.Attribute) and _unparse(f.value) not in ('math', 'np', 'numpy', 'tracklib', 'progressbar'):
+        if isinstance(f, ast.Attribute) and _unparse(f.value) not in ('math', 'np', 'numpy', 'tracklib', 'progressbar') and not (_is_dotted(f.value) and _unparse(f.value).startswith('tracklib.')):
             try:
                 rv = ev(f.value, env, funcs)
             except Unsupported:
@@ -1004,6 +1008,12 @@ def ev(n, env, funcs=None):
                 items.append(ev(e, env, funcs))
         return set(items) if isinstance(n, ast.Set) else (tuple(items) if isinstance(n, ast.Tuple) else items)
     raise Unsupported(_unparse(n) if isinstance(n, ast.AST) else str(n))
+
+
+def _is_dotted(n):
+    while isinstance(n, ast.Attribute):
+        n = n.value
+    return isinstance(n, ast.Name)
 
 
 def _iterable(it, node):
